@@ -285,6 +285,40 @@ class Fn:
                     out.append((b, s))
         return out
 
+    def is_unreachable_block(self, bb):
+        t = self.blocks[bb]['term']
+        return bool(t) and t['t'] == 'unreachable'
+
+    def iterator_loops(self):
+        """[(next_call, header, body)] for every `Iterator::next` call that drives a natural loop (innermost loop of the call)"""
+        out = []
+        for c in self.calls:
+            if c.short == 'next' and c.decl.endswith('Iterator::next'):
+                lp = self.loop_of(c.bb)
+                if lp is not None:
+                    out.append((c, lp[0], lp[1]))
+        return out
+
+    def classify_loop_exits(self, next_call, body):
+        """(exhaustion_edges, other_edges) of a loop driven by next_call; edges into `unreachable` blocks are dropped"""
+        normal, other = [], []
+        for (src, dst) in self.loop_exits(body):
+            if self.is_unreachable_block(dst):
+                continue
+            t = self.blocks[src]['term']
+            sw = None
+            if t and t['t'] == 'falseEdge' and len(self.pred[src]) == 1:
+                sw = self.blocks[self.pred[src][0]]['term']
+            elif t and t['t'] == 'switch':
+                sw = t
+            if sw is not None and sw['t'] == 'switch':
+                org = provenance(self, sw['discr'])
+                if next_call.dst['l'] in org.locals and not [c for c in org.calls if c is not next_call]:
+                    normal.append((src, dst))
+                    continue
+            other.append((src, dst))
+        return normal, other
+
     # ---------------------------------------------------------------- edges / conditions
     def switch_edges(self):
         """yield (bb, discr_operand, value_or_None(for otherwise), target)"""
